@@ -89,6 +89,23 @@ def _enum(vc, kind):
                     for z2 in zs:
                         B = jac(M, curve, Q, z2, p)
                         check("eq", bool(A == B), P == Q, P, Q, z, z2)
+            # the affine Point class: double, negation, (in)equality, mixed comparison with the Jacobian form, radd / rmul
+            if P is not EM.INF:
+                Pa = M.Point(curve, P[0], P[1], n)
+                check("affine-double", aff(M, Pa.double(), p), EM.add(P, P, a, p), P)
+                check("affine-neg", aff(M, -Pa, p), EM.neg(P, p), P)
+                check("affine-add-infinity", (aff(M, Pa + M.INFINITY, p), aff(M, M.INFINITY + Pa, p)), (P, P), P)
+                check("affine-add-own-inverse", aff(M, Pa + (-Pa), p), EM.INF, P)
+                check("affine-rmul", aff(M, 3 * Pa, p), EM.mul(3, P, a, p), P)
+                check("jacobi-radd-rmul", (aff(M, M.INFINITY + jac(M, curve, P, 2, p), p), aff(M, 3 * jac(M, curve, P, 2, p, n), p)),
+                      (P, EM.mul(3, P, a, p)), P)
+                for Q in pts:
+                    if Q is EM.INF:
+                        check("affine-eq-infinity", (bool(Pa == M.INFINITY), bool(Pa != M.INFINITY)), (False, True), P)
+                        continue
+                    Qa = M.Point(curve, Q[0], Q[1], n)
+                    check("affine-eq", (bool(Pa == Qa), bool(Pa != Qa)), (P == Q, P != Q), P, Q)
+                    check("affine-eq-jacobi", bool(jac(M, curve, Q, 2, p) == Pa), P == Q, P, Q)
     elif kind == "mul":
         for P in pts[1:]:
             for k in list(range(0, 2 * n + 2)) + [-1, -n, 3 * n + 1]:
@@ -119,7 +136,9 @@ for _k in ("add", "double-neg-eq", "mul", "mul_add"):
     proof("C17/small-curves.%s" % _k,
           functions=[(EC, "PointJacobi.__add__"), (EC, "PointJacobi._add"), (EC, "PointJacobi.double"),
                      (EC, "PointJacobi.__mul__"), (EC, "PointJacobi._mul_precompute"), (EC, "PointJacobi.mul_add"),
-                     (EC, "PointJacobi.__eq__"), (EC, "PointJacobi.scale"), (EC, "Point.__add__"), (EC, "Point.__mul__")],
+                     (EC, "PointJacobi.__eq__"), (EC, "PointJacobi.scale"), (EC, "Point.__add__"), (EC, "Point.__mul__"),
+                     (EC, "Point.double"), (EC, "Point.__neg__"), (EC, "Point.__eq__"), (EC, "Point.__ne__"), (EC, "Point.__rmul__"),
+                     (EC, "PointJacobi.__neg__"), (EC, "PointJacobi.__radd__"), (EC, "PointJacobi.__rmul__")],
           family=fam(_k), bounded_only=True)(_p)
 
 
@@ -135,6 +154,9 @@ def fam_ecdh(seed, tier):
 
 
 @proof("C17/ecdh-and-validation", functions=[("register_crypto_plugin.ecdsa.ecdh", "ECDH.generate_sharedsecret_bytes"),
+                                             ("register_crypto_plugin.ecdsa.ecdh", "ECDH.__init__"),
+                                             ("register_crypto_plugin.ecdsa.ecdh", "ECDH._get_shared_secret"),
+                                             ("register_crypto_plugin.ecdsa.ecdh", "ECDH.generate_sharedsecret"),
                                              ("register_crypto_plugin.ecdsa.ecdsa", "Public_key.__init__")],
        family=fam_ecdh, bounded_only=True)
 def ecdh(vc):
@@ -216,11 +238,71 @@ def ecdh(vc):
         vc.prove("point-on-another-curve-rejected", True)
 
 
+# ---------------------------------------------------------------------------------------
+# numbertheory.square_root_mod_prime / inverse_mod (what compressed-point decoding and the affine formulas rest on):
+#   a is a square mod p  =>  r = sqrt(a, p) with 0 <= r < p and r*r = a (mod p);   otherwise SquareRootError;
+#   inverse_mod(a, m) * a = 1 (mod m) for gcd(a, m) = 1.   Exhaustive for every odd prime below the bound (all three
+#   branches p = 3 mod 4, p = 5 mod 8, p = 1 mod 8), sampled on the 17 curve primes (squares and non-squares).
+NT = "register_crypto_plugin.ecdsa.numbertheory"
+
+
+def fam_sqrt(seed, tier):
+    top = 260 if tier == "quick" else 1300
+    primes = [q for q in range(3, top) if all(q % d for d in range(2, int(q ** 0.5) + 1))]
+    for i in range(0, len(primes), 8):
+        yield dict(mode="small", primes=primes[i:i + 8], seed=seed)
+    yield dict(mode="curves", primes=[], seed=seed)
+
+
+@proof("C17/numbertheory.sqrt-and-inverse", functions=[(NT, "square_root_mod_prime"), (NT, "inverse_mod"), (NT, "jacobi")],
+       family=fam_sqrt, bounded_only=True)
+def sqrt_inverse(vc):
+    import random
+    N = vc.module(NT)
+    C = vc.module("register_crypto_plugin.ecdsa.curves")
+    bad = []
+    if vc._get("mode") == "small":
+        for q in vc._get("primes"):
+            squares = {x * x % q for x in range(q)}
+            for a_ in range(q):
+                vc.tick()
+                o = vc.call(N.square_root_mod_prime, a_, q)
+                if a_ in squares:
+                    if not (o.returned and 0 <= o.value < q and o.value * o.value % q == a_):
+                        bad.append(("sqrt", a_, q, repr(o.exc) if not o.returned else o.value))
+                elif not o.raised(N.SquareRootError):
+                    bad.append(("sqrt-of-a-non-square", a_, q, repr(o.exc) if not o.returned else o.value))
+                if a_:
+                    i = N.inverse_mod(a_, q)
+                    if not (0 < i < q and i * a_ % q == 1):
+                        bad.append(("inverse", a_, q, i))
+    else:
+        rnd = random.Random(vc._get("seed"))
+        for name in ["NIST192p", "NIST224p", "NIST256p", "NIST384p", "NIST521p", "SECP256k1", "BRAINPOOLP160r1", "BRAINPOOLP192r1",
+                     "BRAINPOOLP224r1", "BRAINPOOLP256r1", "BRAINPOOLP320r1", "BRAINPOOLP384r1", "BRAINPOOLP512r1", "SECP112r1",
+                     "SECP112r2", "SECP128r1", "SECP160r1"]:
+            q = getattr(C, name).curve.p()
+            for _ in range(3):
+                vc.tick()
+                x = rnd.randrange(1, q)
+                a_ = x * x % q
+                o = vc.call(N.square_root_mod_prime, a_, q)
+                if not (o.returned and 0 <= o.value < q and o.value * o.value % q == a_):
+                    bad.append(("sqrt", name, a_))
+                i = N.inverse_mod(x, q)
+                if i * x % q != 1:
+                    bad.append(("inverse", name, x))
+            nonsq = next(v for v in range(2, 200) if pow(v, (q - 1) // 2, q) == q - 1)
+            o = vc.call(N.square_root_mod_prime, nonsq, q)
+            if not o.raised(N.SquareRootError):
+                bad.append(("sqrt-of-a-non-square", name, nonsq))
+    vc.prove("sqrt(a)^2=a-or-SquareRootError;inverse*a=1", not bad, repr(bad[:4]))
+
+
 # "points that are off the curve, out of range or on another curve are rejected when loaded as public keys": the loaders'
 # contracts (proved under C19) are obligations here too - in particular the test is against the curve of the KEY, whatever
 # curve the point object handed in carries
 from pyvc.harness import reuse as _reuse
-from contracts import C19 as _C19x  # noqa: E402,F401
 _reuse("C19/Public_key.point-validation", "C17/Public_key.accepted<=>in-range-and-on-the-key's-curve")
 _reuse("C19/VerifyingKey.from_public_point.validates-against-the-key's-curve", "C17/from_public_point.validates-against-the-key's-curve")
 _reuse("C19/VerifyingKey.from_string.decoded-point-reaches-validation-unchanged", "C17/from_string.decoded-point-reaches-validation-unchanged")
